@@ -102,7 +102,10 @@ ArchiveClauses(B, A, exit, sel, arows, members) ==
         V(A = B, "ArchiveReadOnly")
    \cup V(exit # 0 \/ arows = Selected(B, sel), "ArchiveSelectsExactly")
    \cup V(exit # 0 \/ members = {Key(r) : r \in Selected(B, sel)}, "ArchiveMembersExact")
-   \cup V(exit = 0 \/ Selected(B, sel) = {} \/ sel.expectFail, "ArchiveSucceeds")
+   (* an archive may fail when the output directory of a selected version is gone (removed by hand); it must then leave *)
+   (* the project as it is (ArchiveReadOnly), and it may not "succeed" by quietly selecting something else             *)
+   \cup V(exit = 0 \/ Selected(B, sel) = {} \/ sel.expectFail
+          \/ (\E r \in Selected(B, sel) : ~\E v \in B.vdirs : Key(v) = Key(r)), "ArchiveSucceeds")
 
 (***************************************************************************)
 (* restore (C11 C12): arch = [rows, members (seq of <<id,ts,digest>>), defect] *)
